@@ -729,7 +729,7 @@ pub fn build(quick: bool) -> Check {
     Check {
         id: "C04",
         level: "model_checking",
-        rule: format!("{} large-message scenarios on the real run_on: logical messages of k*(2^24-1)+d bytes (k in {{1{}}}, d in [-6,6]) as a one-cell text row and as a binary row; two-cell rows with the packet limit falling -1..4 bytes into the second cell (inside its 3-byte length prefix, exactly between the cells, in its data); a one-byte cell straddling the limit; three cells each far below the limit; rows of ~70000 / ~16000 small cells (239..241, 1021 bytes; more sizes in thorough) so that the limit falls at varying offsets of a cell; ERR messages and a column name beyond 2^24 bytes; column names of 2^24-35..2^24-19 bytes (thorough 2^24-61..2^24+5) so that the definition's payload passes the packet limit at every offset; exact multiples as the last, never explicitly ended row (finish / drop); exact multiples requested with sequence ids 249..252 (thorough 244..255) so that the packets of the message straddle the wrap of the id counter; each under whole, 1 MiB and 65537-byte transport writes; two-packet messages again with one transient deviation (Interrupted once, a write accepting 1 byte / half) at each large transport write; followed by a small row and a sentinel PING. Plus every cell length 0..70000, and cells of 2^15..2^20+1 bytes alone and after 270 / 1500 small rows. Large messages in context: a row of 2 MiB / 2^24-1 (+-1, x2) bytes, text and binary, preceded in its resultset by nothing / 2 / 5 short rows / a 5000-byte row, or being the first row of a later resultset of its response (behind a short resultset / behind complete_one), its response ended by EOF / a trailing completion / an error / a second resultset, the next command answered by PING's OK / an OK / a short resultset / an ERR (all 96 combinations per size; the packetisation rule is checked on every message of the stream). Oracle: every header length equals the bytes that follow; the message is cut into floor(L/(2^24-1)) maximal packets plus one shorter (possibly empty) packet; consecutive sequence ids; strict decode returns exactly the bytes written. Non-trivial = message of at least 2^24-1 bytes.", n, ",2"),
+        rule: format!("replies of 65 400 bytes .. 200 000 bytes (thorough: to 2^24+5) inside a TLS session, decrypted by a real client; {} large-message scenarios on the real run_on: logical messages of k*(2^24-1)+d bytes (k in {{1{}}}, d in [-6,6]) as a one-cell text row and as a binary row; two-cell rows with the packet limit falling -1..4 bytes into the second cell (inside its 3-byte length prefix, exactly between the cells, in its data); a one-byte cell straddling the limit; three cells each far below the limit; rows of ~70000 / ~16000 small cells (239..241, 1021 bytes; more sizes in thorough) so that the limit falls at varying offsets of a cell; ERR messages and a column name beyond 2^24 bytes; column names of 2^24-35..2^24-19 bytes (thorough 2^24-61..2^24+5) so that the definition's payload passes the packet limit at every offset; exact multiples as the last, never explicitly ended row (finish / drop); exact multiples requested with sequence ids 249..252 (thorough 244..255) so that the packets of the message straddle the wrap of the id counter; each under whole, 1 MiB and 65537-byte transport writes; two-packet messages again with one transient deviation (Interrupted once, a write accepting 1 byte / half) at each large transport write; followed by a small row and a sentinel PING. Plus every cell length 0..70000, and cells of 2^15..2^20+1 bytes alone and after 270 / 1500 small rows. Large messages in context: a row of 2 MiB / 2^24-1 (+-1, x2) bytes, text and binary, preceded in its resultset by nothing / 2 / 5 short rows / a 5000-byte row, or being the first row of a later resultset of its response (behind a short resultset / behind complete_one), its response ended by EOF / a trailing completion / an error / a second resultset, the next command answered by PING's OK / an OK / a short resultset / an ERR (all 96 combinations per size; the packetisation rule is checked on every message of the stream). Oracle: every header length equals the bytes that follow; the message is cut into floor(L/(2^24-1)) maximal packets plus one shorter (possibly empty) packet; consecutive sequence ids; strict decode returns exactly the bytes written. Non-trivial = message of at least 2^24-1 bytes.", n, ",2"),
         assumptions: vec!["message sizes are explored in a window around the packet limit, not exhaustively between 70000 and 2^24-7".into()],
         bounds: json!({"k": 2, "d_window": 6, "scenarios": n}),
         exhaustive: true,
@@ -739,12 +739,14 @@ pub fn build(quick: bool) -> Check {
             Box::new(Transient::new(quick)),
             Box::new(Small),
             Box::new(MidSizes),
+            // replies beyond what a TLS layer buffers per call (64 KiB in rustls) inside a TLS session
+            Box::new(super::c18::TlsReplySizes { sizes: if quick { vec![65_400, 65_536, 70_000, 200_000] } else { vec![65_400, 65_520, 65_536, 65_537, 70_000, 131_072, 200_000, 1 << 20, MAXP + 5] } }),
             Box::new(super::context::BoundaryCells { prop: "C04", bin: false }),
             Box::new(super::context::BoundaryCells { prop: "C04", bin: true }),
             Box::new(LargeInContext {
                 bigs: if quick { vec![(false, 2 << 20), (false, MAXP), (true, MAXP + 1)] } else { vec![(false, 2 << 20), (false, MAXP - 1), (false, MAXP), (false, MAXP + 1), (false, 2 * MAXP), (true, 2 << 20), (true, MAXP - 1), (true, MAXP), (true, MAXP + 1)] },
             }),
         ],
-        required: vec!["boundary_cells", "large_in_context", "transient_deviations", "multi_packet_messages", "empty_closing_packets", "mid_size_cells"],
+        required: vec!["tls_reply_sizes", "boundary_cells", "large_in_context", "transient_deviations", "multi_packet_messages", "empty_closing_packets", "mid_size_cells"],
     }
 }
